@@ -424,7 +424,8 @@ func vC02BTerm(c vC02BCase, obs vC02BObs) string {
 		fin = append(fin, fmt.Sprintf("(%d, %d)", f[0], f[1]))
 	}
 	batching := c.Size > 0 && c.AgeMs > 0
-	return fmt.Sprintf("(mk_h1 %s %d %d %s %s %s)", cqBool(batching), c.Qcap, c.Size, cqList(evs), cqList(fin), cqList(obs.Calls))
+	nofire := c.AgeMs >= 60000
+	return fmt.Sprintf("(mk_h1 %s %s %d %d %s %s %s)", cqBool(batching), cqBool(nofire), c.Qcap, c.Size, cqList(evs), cqList(fin), cqList(obs.Calls))
 }
 
 func vC02BNontrivial(c vC02BCase, obs vC02BObs) bool {
